@@ -6,7 +6,8 @@
                  (d c j - mean over characters c' of d c' j),   d c j = y_hat[i][c][w][j] - y0[i][j]
             times X[i][c][start + w] unless hypothetical.
 
-   Where the property text is silent (window outside 0 <= start < end <= L other than end = -1,
+   Where the property text is silent (window outside 0 <= start < end <= L after a negative end
+   has been counted from L + 1,
    batch_size < 1, attribution of a tuple-output model, invalid target, outputs whose shape is not
    the declared (T, R)) spec_ok is true.                                                           *)
 From TM Require Import Base.Prelude Base.OneHot Base.PyList C09.Model.
@@ -26,16 +27,13 @@ Definition mutant (A : nat) (x : dna) (p ch : nat) : dna :=
                            else nth q x []).
 
 (* the window [start, end) the call denotes, when it is one the property speaks about:
-   0 <= start < end <= L, or end = -1 meaning "to the end of the sequence" *)
+   0 <= start < end <= L, or a negative end counted the way the documented default end = -1
+   ("the whole sequence") fixes it: end = -1 is L, end = -2 is L - 1, ... *)
 Definition window (c : call) : option (nat * nat) :=
   let L := Z.of_nat (cL c) in
-  if 0 <=? cStart c then
-    if 0 <=? cEnd c then
-      if (cStart c <? cEnd c) && (cEnd c <=? L) then Some (Z.to_nat (cStart c), Z.to_nat (cEnd c))
-      else None
-    else if (cEnd c =? -1) && (cStart c <? L) then Some (Z.to_nat (cStart c), cL c)
-    else None
-  else None.
+  let e := if 0 <=? cEnd c then cEnd c else L + 1 + cEnd c in
+  if (0 <=? cStart c) && (cStart c <? e) && (e <=? L)
+  then Some (Z.to_nat (cStart c), Z.to_nat e) else None.
 
 Definition arg_of (c : call) (i : nat) : option Arg :=
   match cArgs c with Some a => Some (nth i a []) | None => None end.
@@ -45,19 +43,26 @@ Definition target_ok (t : target) (T : nat) : bool :=
   match t with
   | TNone => true
   | TInt z => (- Z.of_nat T <=? z) && (z <? Z.of_nat T)
-  | TSlice lo hi => (0 <=? lo) && (lo <? hi) && (hi <=? Z.of_nat T)
+  | TSlice lo hi st => (0 <=? lo) && (lo <? hi) && (hi <=? Z.of_nat T) && (1 <=? st)
   end.
+(* how many targets are selected: ceil((hi - lo) / st) for a slice *)
 Definition nsel (t : target) (T : nat) : nat :=
-  match t with TNone => T | TInt _ => 1%nat | TSlice lo hi => Z.to_nat (hi - lo) end.
+  match t with
+  | TNone => T
+  | TInt _ => 1%nat
+  | TSlice lo hi st => Z.to_nat ((hi - lo + st - 1) / st)
+  end.
 Definition first_row (t : target) (T : nat) : nat :=
   match t with
   | TNone => 0%nat
   | TInt z => Z.to_nat (if z <? 0 then z + Z.of_nat T else z)
-  | TSlice lo _ => Z.to_nat lo
+  | TSlice lo _ _ => Z.to_nat lo
   end.
-(* j-th selected number (target-major) *)
+Definition stride (t : target) : nat :=
+  match t with TSlice _ _ st => Z.to_nat st | _ => 1%nat end.
+(* j-th selected number (target-major): selected row j / R, entry j mod R *)
 Definition pick (t : target) (T R : nat) (o : OT) (j : nat) : Q :=
-  nth (j mod R) (nth (first_row t T + j / R) o []) 0%Q.
+  nth (j mod R) (nth (first_row t T + (j / R) * stride t) o []) 0%Q.
 
 Definition shape_ok (T R : nat) (o : OT) : bool :=
   (length o =? T)%nat && forallb (fun r => (length r =? R)%nat) o.
@@ -191,9 +196,14 @@ Definition to_outcome (b : obs) : outcome :=
 (* rational literal for the cases files (QArith is not imported there) *)
 Definition mkq (n : Z) (d : positive) : Q := Qmake n d.
 
-Definition case := (hdesc * call * obs)%type.
+(* one correspondence case: the network, the call, what the implementation returned, and whether
+   the caller's X and args were bit-identical afterwards ("the original sequences" must still be
+   what the caller passed; aliasing is not expressible in the model, so it is observed; only
+   demanded of calls the property speaks about) *)
+Definition case := (hdesc * call * obs * bool)%type.
 
 Definition check_case (cs : case) : nat :=
-  let '(d, cl, b) := cs in
+  let '(d, cl, b, unchanged) := cs in
   let o := to_outcome b in
-  verdict (outcome_eqb (cTol cl) o (model (h_of d) cl)) (spec_ok (h_of d) cl o).
+  verdict (outcome_eqb (cTol cl) o (model (h_of d) cl))
+          ((unchanged || negb (in_scope (h_of d) cl)) && spec_ok (h_of d) cl o).
